@@ -29,6 +29,7 @@ type Cutter struct {
 	failWr   int64 // writes fail (without closing anything) once wr reaches this (-1 = never)
 	OnCut    func(dir string)
 	closeOne sync.Once
+	CloseErr error // what Close() reports (the connection is closed all the same)
 }
 
 func NewCutter(c net.Conn) *Cutter {
@@ -148,7 +149,7 @@ func (c *Cutter) Write(b []byte) (int, error) {
 
 func (c *Cutter) Close() error {
 	c.doCut("close")
-	return nil
+	return c.CloseErr
 }
 
 // Handlers of a raw plugin peer; nil entries answer with an empty response.
